@@ -59,61 +59,68 @@ type v34Exchange struct {
 	Seed uint64
 
 	// request
-	Method      string
-	HostOverrid string // Request.Host, "" = none
-	URLHost     string
-	RawPath     string // escaped
-	RawQuery    string
-	ReqHeaders  []v34Field
-	CookiePairs [][]string // one Cookie header value per element
-	UserAgent   string     // "" = not set by the client
-	AcceptEnc   string     // "" = not set by the client
-	ReqKind     string
-	ReqBody     int64 // bytes the body reader produces
-	ReqDeclared int64 // Request.ContentLength
-	ReqChunkMax int
-	ReqEOFWithData bool // last chunk is returned together with io.EOF
-	ReqTrailers []v34Field
+	Method               string
+	HostOverrid          string // Request.Host, "" = none
+	URLHost              string
+	RawPath              string // escaped
+	RawQuery             string
+	ReqHeaders           []v34Field
+	CookiePairs          [][]string // one Cookie header value per element
+	UserAgent            string     // "" = not set by the client
+	AcceptEnc            string     // "" = not set by the client
+	ReqKind              string
+	ReqBody              int64 // bytes the body reader produces
+	ReqDeclared          int64 // Request.ContentLength
+	ReqChunkMax          int
+	ReqEOFWithData       bool // last chunk is returned together with io.EOF
+	ReqTrailers          []v34Field
 	ReqTrailerUndeclared bool // the body also adds a trailer that was never declared
 
 	// handler
-	Duplex       bool // write the response while reading the request
-	ReqReadMax   int
-	Status       int
-	EarlyHints   bool
-	ExplicitWH   bool
-	LateMutation bool
-	RespHeaders  []v34Field
-	RespKind     string
-	RespBody     int64 // bytes the handler tries to write
-	RespDeclared int64 // Content-Length set by the handler, -1 none
-	RespChunkMax int
-	RespFlushPct int
-	FlushFirst   bool // Flush before the first Write
+	Duplex               bool  // write the response while reading the request
+	RespAfterReq         int64 // duplex: start the response once this many request bytes were read
+	ReqReadMax           int
+	Status               int
+	EarlyHints           bool
+	ExplicitWH           bool
+	LateMutation         bool
+	RespHeaders          []v34Field
+	RespKind             string
+	RespBody             int64 // bytes the handler tries to write
+	RespDeclared         int64 // Content-Length set by the handler, -1 none
+	RespChunkMax         int
+	RespFlushPct         int
+	FlushFirst           bool // Flush before the first Write
 	RespTrailersDeclared []v34Field
 	RespTrailersPrefix   []v34Field
 	RespTrailerUnset     string // declared but never set ("" = none)
-	RespReadMax  int
+	RespReadMax          int
 }
 
 func (ex *v34Exchange) summary() map[string]any {
 	return map[string]any{"id": ex.ID, "method": ex.Method, "path": ex.RawPath, "query": ex.RawQuery, "req_headers": len(ex.ReqHeaders),
 		"req_kind": ex.ReqKind, "req_body": ex.ReqBody, "req_declared": ex.ReqDeclared, "req_chunk_max": ex.ReqChunkMax, "req_trailers": len(ex.ReqTrailers),
-		"duplex": ex.Duplex, "status": ex.Status, "resp_headers": len(ex.RespHeaders), "resp_kind": ex.RespKind, "resp_body": ex.RespBody,
+		"duplex": ex.Duplex, "resp_after_req_bytes": ex.RespAfterReq, "status": ex.Status, "resp_headers": len(ex.RespHeaders), "resp_kind": ex.RespKind, "resp_body": ex.RespBody,
 		"resp_declared": ex.RespDeclared, "resp_chunk_max": ex.RespChunkMax, "flush_pct": ex.RespFlushPct, "flush_first": ex.FlushFirst,
 		"explicit_writeheader": ex.ExplicitWH, "late_mutation": ex.LateMutation, "early_hints": ex.EarlyHints,
 		"resp_trailers_declared": len(ex.RespTrailersDeclared), "resp_trailers_prefix": len(ex.RespTrailersPrefix)}
 }
 
 type v34Config struct {
-	Faults       vhnFaults
-	FaultPhaseMs int
-	CleanBoundS  int
-	CliBuf       [3]int64 // MaxStreamReadBufferSize, MaxStreamWriteBufferSize, MaxConnReadBufferSize
-	SrvBuf       [3]int64
+	Faults             vhnFaults
+	FaultPhaseMs       int
+	CleanBoundS        int
+	CliBuf             [3]int64 // MaxStreamReadBufferSize, MaxStreamWriteBufferSize, MaxConnReadBufferSize
+	SrvBuf             [3]int64
 	DisableCompression bool
-	NetSeed      uint64
-	Ex           []*v34Exchange
+	NetSeed            uint64
+	Ex                 []*v34Exchange
+	// KeyUpdateLossMs > 0 selects the scripted loss pattern instead of PRNG faults: from the
+	// client's first 1-RTT packet with a number above KeyUpdateAfter, for that many virtual
+	// ms, every client datagram that carries an ack-eliciting packet is lost (pure
+	// acknowledgements get through). Afterwards the network is perfect.
+	KeyUpdateLossMs int
+	KeyUpdateAfter  int64
 }
 
 func v34Pattern(lane uint32, off int64) byte {
@@ -463,10 +470,10 @@ func v34GenConfig(rng *rand.Rand, maxEx int, maxBody int64, maxHeaders int) *v34
 
 type v34BodyObs struct {
 	Progress atomic.Int64 // == N, readable while the reader runs
-	N        int64 // bytes delivered
-	BadAt    int64 // first offset whose byte differs from the pattern (-1 none)
+	N        int64        // bytes delivered
+	BadAt    int64        // first offset whose byte differs from the pattern (-1 none)
 	BadGot   byte
-	Err      error // error that ended the reading (io.EOF = clean end)
+	Err      error  // error that ended the reading (io.EOF = clean end)
 	AfterEOF string // non-empty: a Read after io.EOF returned something else than (0, error)
 	ZeroNil  bool
 }
@@ -477,45 +484,45 @@ type v34WriteRec struct {
 }
 
 type v34SrvObs struct {
-	Calls     atomic.Int32
-	Done      atomic.Bool
-	Method    string
-	Host      string
-	ReqURI    string
-	Path      string
-	RawQuery  string
-	Proto     string
-	ProtoMajor int
-	CL        int64
-	Header    http.Header
+	Calls           atomic.Int32
+	Done            atomic.Bool
+	Method          string
+	Host            string
+	ReqURI          string
+	Path            string
+	RawQuery        string
+	Proto           string
+	ProtoMajor      int
+	CL              int64
+	Header          http.Header
 	TrailerDeclared []string // keys of r.Trailer before the body was read
-	Body      v34BodyObs
-	Trailer   http.Header // after the body
-	Writes    []v34WriteRec
-	SnapHeader http.Header // what the handler's header map held when the status was committed
-	Written   int64 // bytes the handler offered to Write
+	Body            v34BodyObs
+	Trailer         http.Header // after the body
+	Writes          []v34WriteRec
+	SnapHeader      http.Header // what the handler's header map held when the status was committed
+	Written         int64       // bytes the handler offered to Write
 }
 
 type v34CliObs struct {
-	Done     atomic.Bool
-	RTErr    error
-	Status   int
-	Proto    string
-	CL       int64
-	Header   http.Header
-	Body     v34BodyObs
-	Trailer  http.Header
+	Done       atomic.Bool
+	RTErr      error
+	Status     int
+	Proto      string
+	CL         int64
+	Header     http.Header
+	Body       v34BodyObs
+	Trailer    http.Header
 	BodyClosed atomic.Bool // the transport closed the request body
 }
 
 type v34Run struct {
-	cfg *v34Config
-	c   *verifrt.Case
-	srv []*v34SrvObs
-	cli []*v34CliObs
-	hwg sync.WaitGroup
-	srvDone []chan struct{} // closed when the handler of exchange i returns (made inside the bubble)
-	vmu sync.Mutex
+	cfg        *v34Config
+	c          *verifrt.Case
+	srv        []*v34SrvObs
+	cli        []*v34CliObs
+	hwg        sync.WaitGroup
+	srvDone    []chan struct{} // closed when the handler of exchange i returns (made inside the bubble)
+	vmu        sync.Mutex
 	unknownReq atomic.Int32
 }
 
@@ -527,7 +534,7 @@ func (run *v34Run) viol(key, format string, a ...any) {
 
 // v34ReadAll reads rd to its end in PRNG-sized pieces and checks each byte against the
 // pattern of lane as it arrives.
-func v34ReadAll(rd io.Reader, lane uint32, readMax int, rng *rand.Rand, obs *v34BodyObs) {
+func v34ReadAll(rd io.Reader, lane uint32, readMax int, rng *rand.Rand, obs *v34BodyObs, progress func(n int64)) {
 	obs.BadAt = -1
 	buf := make([]byte, readMax)
 	for {
@@ -542,6 +549,9 @@ func v34ReadAll(rd io.Reader, lane uint32, readMax int, rng *rand.Rand, obs *v34
 		}
 		obs.N += int64(n)
 		obs.Progress.Store(obs.N)
+		if progress != nil {
+			progress(obs.N)
+		}
 		if err != nil {
 			obs.Err = err
 			if err == io.EOF {
@@ -633,8 +643,15 @@ func (run *v34Run) ServeHTTP(w http.ResponseWriter, r *http.Request) {
 	}
 	sort.Strings(obs.TrailerDeclared)
 
+	reached := make(chan struct{})
+	var reachedOnce sync.Once
+	progress := func(n int64) {
+		if ex.RespAfterReq > 0 && n >= ex.RespAfterReq {
+			reachedOnce.Do(func() { close(reached) })
+		}
+	}
 	readReq := func() {
-		v34ReadAll(r.Body, uint32(2*id), ex.ReqReadMax, rand.New(rand.NewPCG(ex.Seed, 2)), &obs.Body)
+		v34ReadAll(r.Body, uint32(2*id), ex.ReqReadMax, rand.New(rand.NewPCG(ex.Seed, 2)), &obs.Body, progress)
 		obs.Trailer = r.Trailer.Clone()
 	}
 	if ex.Duplex {
@@ -644,6 +661,13 @@ func (run *v34Run) ServeHTTP(w http.ResponseWriter, r *http.Request) {
 			readReq()
 		}()
 		defer func() { <-done }()
+		if ex.RespAfterReq > 0 {
+			// start answering only once that much of the request has been read
+			select {
+			case <-reached:
+			case <-done:
+			}
+		}
 	} else {
 		readReq()
 	}
@@ -781,7 +805,7 @@ func (run *v34Run) doExchange(ctx context.Context, cc *clientConn, ex *v34Exchan
 	}
 	obs.Status, obs.Proto, obs.CL = resp.StatusCode, resp.Proto, resp.ContentLength
 	obs.Header = resp.Header.Clone()
-	v34ReadAll(resp.Body, uint32(2*ex.ID+1), ex.RespReadMax, rand.New(rand.NewPCG(ex.Seed, 4)), &obs.Body)
+	v34ReadAll(resp.Body, uint32(2*ex.ID+1), ex.RespReadMax, rand.New(rand.NewPCG(ex.Seed, 4)), &obs.Body, nil)
 	obs.Trailer = resp.Trailer.Clone()
 	// Closing the response body tells the transport that the caller is done with the whole
 	// request (it resets the sending half). A response without body ends before the
@@ -801,6 +825,7 @@ type v34RunStats struct {
 	Stuck        bool
 	VirtualMs    int64
 	Net          *vhnNet
+	Tap          *v34Tap
 }
 
 var (
@@ -808,38 +833,113 @@ var (
 	v34ClientAddr = netip.MustParseAddrPort("10.0.0.2:5000")
 )
 
-// v34DbgLog is a debug-only qlog sink (VERIF_DEBUG set): it keeps the last events of one run
-// and is dumped to /tmp/C34 when the run gets stuck.
-type v34DbgLog struct {
-	mu    *sync.Mutex
-	side  string
-	lines *[]string
+// v34Tap receives the qlog events of both endpoints (Config.QLogLogger). The oracle does not
+// use it; it serves (a) the evidence (packets, retransmission-relevant loss events), (b) the
+// diagnosis of a stuck run (an endpoint that discards every packet it receives after a key
+// update gets its own violation key), (c) the scripted loss pattern of the key-update
+// scenario, which needs to know which datagram carries an ack-eliciting packet, and (d) with
+// VERIF_DEBUG set, a readable trace dumped to /tmp/C34 when a run gets stuck.
+type v34Tap struct {
+	mu    sync.Mutex
 	t0    time.Time
+	Side  [2]v34TapSide // 0 client, 1 server
+	lines []string      // debug only
+	// OnSent is called (under mu, on the sending connection's loop goroutine, before the
+	// datagram is written to the network) for every 1-RTT packet an endpoint sends.
+	OnSent func(side int, pnum int64, ackEliciting bool)
 }
 
-func (h *v34DbgLog) Enabled(context.Context, slog.Level) bool { return true }
-func (h *v34DbgLog) WithGroup(string) slog.Handler            { return h }
-func (h *v34DbgLog) WithAttrs(attrs []slog.Attr) slog.Handler { return h }
-func (h *v34DbgLog) Handle(_ context.Context, rec slog.Record) error {
-	var sb strings.Builder
-	fmt.Fprintf(&sb, "%8dms %s %s", time.Since(h.t0).Milliseconds(), h.side, rec.Message)
+type v34TapSide struct {
+	Sent, Received, Discarded, Lost int64
+	ConsecDiscarded                 int64 // packets discarded since the last one that was processed
+	KeyPhaseSeen                    bool  // processed a 1-RTT packet with the key phase bit set
+	MaxSent                         int64
+}
+
+type v34TapHandler struct {
+	tap  *v34Tap
+	side int
+}
+
+func (h *v34TapHandler) Enabled(context.Context, slog.Level) bool { return true }
+func (h *v34TapHandler) WithGroup(string) slog.Handler            { return h }
+func (h *v34TapHandler) WithAttrs(attrs []slog.Attr) slog.Handler { return h }
+func (h *v34TapHandler) Handle(_ context.Context, rec slog.Record) error {
+	t := h.tap
+	var ptype string
+	var pnum, flags int64 = -1, 0
+	eliciting := false
 	rec.Attrs(func(a slog.Attr) bool {
-		if a.Key == "frames" {
+		switch a.Key {
+		case "header":
+			if a.Value.Kind() == slog.KindGroup {
+				for _, g := range a.Value.Group() {
+					switch g.Key {
+					case "packet_type":
+						ptype = g.Value.String()
+					case "packet_number":
+						pnum, _ = strconv.ParseInt(g.Value.String(), 10, 64)
+					case "flags":
+						flags, _ = strconv.ParseInt(g.Value.String(), 10, 64)
+					}
+				}
+			}
+		case "frames":
 			vals, _ := a.Value.Any().([]slog.Value)
 			for _, v := range vals {
-				fmt.Fprintf(&sb, " {%v}", v.Any())
+				// quic's debug frames print as "NAME field=..."; ACK frames (no String
+				// method) print as a struct literal
+				s := fmt.Sprint(v.Any())
+				if s != "" && s[0] >= 'A' && s[0] <= 'Z' && !strings.HasPrefix(s, "PADDING") && !strings.HasPrefix(s, "ACK") && !strings.HasPrefix(s, "CONNECTION_CLOSE") {
+					eliciting = true
+				}
 			}
-		} else {
-			fmt.Fprintf(&sb, " %s=%v", a.Key, a.Value)
 		}
 		return true
 	})
-	h.mu.Lock()
-	*h.lines = append(*h.lines, sb.String())
-	if len(*h.lines) > 20000 {
-		*h.lines = (*h.lines)[10000:]
+	t.mu.Lock()
+	defer t.mu.Unlock()
+	sd := &t.Side[h.side]
+	switch rec.Message {
+	case "transport:packet_sent":
+		sd.Sent++
+		if ptype == "1RTT" {
+			sd.MaxSent = max(sd.MaxSent, pnum)
+			if t.OnSent != nil {
+				t.OnSent(h.side, pnum, eliciting)
+			}
+		}
+	case "transport:packet_received":
+		sd.Received++
+		sd.ConsecDiscarded = 0
+		if ptype == "1RTT" && flags&0x04 != 0 {
+			sd.KeyPhaseSeen = true
+		}
+	case "connectivity:packet_dropped":
+		sd.Discarded++
+		sd.ConsecDiscarded++
+	case "recovery:packet_lost":
+		sd.Lost++
 	}
-	h.mu.Unlock()
+	if v34Debug {
+		var sb strings.Builder
+		fmt.Fprintf(&sb, "%8dms %s %s", time.Since(t.t0).Milliseconds(), "CS"[h.side:h.side+1], rec.Message)
+		rec.Attrs(func(a slog.Attr) bool {
+			if a.Key == "frames" {
+				vals, _ := a.Value.Any().([]slog.Value)
+				for _, v := range vals {
+					fmt.Fprintf(&sb, " {%v}", v.Any())
+				}
+			} else {
+				fmt.Fprintf(&sb, " %s=%v", a.Key, a.Value)
+			}
+			return true
+		})
+		t.lines = append(t.lines, sb.String())
+		if len(t.lines) > 20000 {
+			t.lines = t.lines[10000:]
+		}
+	}
 	return nil
 }
 
@@ -868,11 +968,9 @@ func (run *v34Run) execute(t *testing.T) *v34RunStats {
 	start := time.Now()
 
 	srv := &server{config: v34QUICConfig(cfg.SrvBuf), handler: run}
-	var dbgLines []string
-	var dbgMu sync.Mutex
-	if v34Debug {
-		srv.config.QLogLogger = slog.New(&v34DbgLog{mu: &dbgMu, side: "S", lines: &dbgLines, t0: start})
-	}
+	tap := &v34Tap{t0: start}
+	st.Tap = tap
+	srv.config.QLogLogger = slog.New(&v34TapHandler{tap: tap, side: 1})
 	srvEP, err := quic.NewEndpoint(nw.NewConn(v34ServerAddr, vhnS2C), srv.config)
 	if err != nil {
 		st.HandshakeErr = err
@@ -884,9 +982,7 @@ func (run *v34Run) execute(t *testing.T) *v34RunStats {
 		srv.serve(srvEP)
 	}()
 	cliConf := v34QUICConfig(cfg.CliBuf)
-	if v34Debug {
-		cliConf.QLogLogger = slog.New(&v34DbgLog{mu: &dbgMu, side: "C", lines: &dbgLines, t0: start})
-	}
+	cliConf.QLogLogger = slog.New(&v34TapHandler{tap: tap, side: 0})
 	cliEP, err := quic.NewEndpoint(nw.NewConn(v34ClientAddr, vhnC2S), nil)
 	if err != nil {
 		st.HandshakeErr = err
@@ -914,6 +1010,51 @@ func (run *v34Run) execute(t *testing.T) *v34RunStats {
 		synctest.Wait()
 	}
 
+	if cfg.KeyUpdateLossMs > 0 {
+		// Scripted loss (see v34Config.KeyUpdateLossMs). The window opens a few packets before
+		// the client's packet KeyUpdateAfter; inside it client datagrams with an ack-eliciting
+		// packet are lost, and pure acknowledgements are lost too until the server cannot owe
+		// an acknowledgement any more (its delayed-ack timer is 25 ms). The window closes
+		// once it lasted KeyUpdateLossMs and the server's packet numbers passed
+		// KeyUpdateAfter as well (or after 20 s).
+		var pendEliciting, winActive, winOver atomic.Bool
+		var winStart, lastElicitingPassed, srvMax atomic.Int64 // virtual ms since start / packet number
+		nowMs := func() int64 { return time.Since(start).Milliseconds() }
+		tap.OnSent = func(side int, pnum int64, eliciting bool) {
+			if side != 0 {
+				srvMax.Store(max(srvMax.Load(), pnum))
+				return
+			}
+			pendEliciting.Store(eliciting)
+			if pnum > cfg.KeyUpdateAfter-5 && !winOver.Load() && !winActive.Load() {
+				winStart.Store(nowMs())
+				winActive.Store(true)
+			}
+		}
+		nw.Filter = func(dir int, b []byte) bool {
+			if dir != vhnC2S {
+				return true
+			}
+			e := pendEliciting.Swap(false)
+			now := nowMs()
+			if winActive.Load() {
+				el := now - winStart.Load()
+				if el >= int64(cfg.KeyUpdateLossMs) && srvMax.Load() >= cfg.KeyUpdateAfter+8 || el >= 20000 {
+					winActive.Store(false)
+					winOver.Store(true)
+					return true
+				}
+				if e {
+					return false
+				}
+				return now >= lastElicitingPassed.Load()+int64(cfg.Faults.BaseDelayMs)+30
+			}
+			if e {
+				lastElicitingPassed.Store(now)
+			}
+			return true
+		}
+	}
 	hctx, hcancel := context.WithTimeout(ctx, 200*time.Second)
 	cc, err := tr.dial(hctx, v34ServerAddr.String(), nil)
 	hcancel()
@@ -954,13 +1095,19 @@ func (run *v34Run) execute(t *testing.T) *v34RunStats {
 		synctest.Wait()
 	}
 	st.VirtualMs = time.Since(start).Milliseconds()
+	if done && v34Debug && cfg.KeyUpdateLossMs > 0 {
+		tap.mu.Lock()
+		os.WriteFile(fmt.Sprintf("/tmp/C34/done-%s-%d.log", run.c.Stream, run.c.Index), []byte(strings.Join(tap.lines, "\n")), 0o644)
+		tap.mu.Unlock()
+	}
 	if !done {
 		st.Stuck = true
 		st.StuckIDs = map[int]bool{}
 		if v34Debug {
-			dbgMu.Lock()
-			os.WriteFile(fmt.Sprintf("/tmp/C34/stuck-%s-%d.log", run.c.Stream, run.c.Index), []byte(strings.Join(dbgLines, "\n")), 0o644)
-			dbgMu.Unlock()
+			tap.mu.Lock()
+			os.MkdirAll("/tmp/C34", 0o755)
+			os.WriteFile(fmt.Sprintf("/tmp/C34/stuck-%s-%d.log", run.c.Stream, run.c.Index), []byte(strings.Join(tap.lines, "\n")), 0o644)
+			tap.mu.Unlock()
 		}
 		var stuck []string
 		for _, ex := range cfg.Ex {
@@ -971,8 +1118,19 @@ func (run *v34Run) execute(t *testing.T) *v34RunStats {
 					ex.ID, ex.Method, ex.ReqKind, ex.ReqBody, ex.ReqDeclared, ex.RespKind, ex.RespBody, ex.RespDeclared, so.Calls.Load(), so.Done.Load(), so.Body.Progress.Load(), co.Body.Progress.Load()))
 			}
 		}
-		run.viol("exchange-stuck-after-faults-stopped", "%d exchanges incomplete %d virtual ms after start (network clean for the last %d s): %s; datagrams sent %v dropped %v",
-			pending.Load(), st.VirtualMs, cfg.CleanBoundS, strings.Join(stuck, " | "), nw.Sent, nw.Dropped)
+		key := "exchange-stuck-after-faults-stopped"
+		tap.mu.Lock()
+		tapState := fmt.Sprintf("client tap %+v; server tap %+v", tap.Side[0], tap.Side[1])
+		for i, name := range []string{"client", "server"} {
+			if sd := tap.Side[i]; sd.ConsecDiscarded >= 3 && sd.KeyPhaseSeen {
+				// the endpoint processed packets of the next key phase and since then
+				// discards everything its peer sends, on a perfect network
+				key = "exchange-stuck-" + name + "-discards-every-packet-after-key-update"
+			}
+		}
+		tap.mu.Unlock()
+		run.viol(key, "%s; %d exchanges incomplete %d virtual ms after start (network clean for the last %d s): %s; datagrams sent %v dropped %v",
+			tapState, pending.Load(), st.VirtualMs, cfg.CleanBoundS, strings.Join(stuck, " | "), nw.Sent, nw.Dropped)
 	}
 	teardown(cc)
 	wg.Wait()
@@ -1378,13 +1536,13 @@ func TestVerif_C34(t *testing.T) {
 		maxEx, maxBody, maxHeaders = 6, 1<<20, 30
 	}
 	var mu sync.Mutex
-	r.CasesParallel("exchange", n, 8, func(c *verifrt.Case) {
-		cfg := v34GenConfig(c.Rng, maxEx, maxBody, maxHeaders)
+	runCase := func(c *verifrt.Case, cfg *v34Config) {
 		var sum []map[string]any
 		for _, ex := range cfg.Ex {
 			sum = append(sum, ex.summary())
 		}
-		c.Describe(map[string]any{"faults": cfg.Faults, "fault_phase_ms": cfg.FaultPhaseMs, "cli_buf": cfg.CliBuf, "srv_buf": cfg.SrvBuf, "disable_compression": cfg.DisableCompression, "exchanges": sum})
+		c.Describe(map[string]any{"faults": cfg.Faults, "fault_phase_ms": cfg.FaultPhaseMs, "cli_buf": cfg.CliBuf, "srv_buf": cfg.SrvBuf, "disable_compression": cfg.DisableCompression,
+			"key_update_loss_ms": cfg.KeyUpdateLossMs, "key_update_after_packet": cfg.KeyUpdateAfter, "exchanges": sum})
 		run := &v34Run{cfg: cfg, c: c}
 		for range cfg.Ex {
 			run.srv = append(run.srv, &v34SrvObs{})
@@ -1402,11 +1560,11 @@ func TestVerif_C34(t *testing.T) {
 			return
 		}
 		run.evaluate(st, r)
-		nn := st.Net
-		faulted := nn.Dropped[0]+nn.Dropped[1]+nn.Duped[0]+nn.Duped[1]+nn.Reordered[0]+nn.Reordered[1] > 0
+		nn, tp := st.Net, st.Tap
+		faulted := nn.Dropped[0]+nn.Dropped[1]+nn.Duped[0]+nn.Duped[1]+nn.Reordered[0]+nn.Reordered[1]+nn.Filtered[0] > 0
 		for _, ex := range cfg.Ex {
 			nt := faulted && (ex.ReqBody > 0 || ex.RespBody > 0) && run.cli[ex.ID].Done.Load()
-			r.Eval(nt, ex.Method, ex.ReqKind, ex.ReqBody, ex.ReqChunkMax, len(ex.ReqHeaders), ex.RespKind, ex.RespBody, ex.RespChunkMax, ex.RespFlushPct, len(ex.RespHeaders), ex.Status, nn.Dropped, nn.Duped, nn.Reordered)
+			r.Eval(nt, ex.Method, ex.ReqKind, ex.ReqBody, ex.ReqChunkMax, len(ex.ReqHeaders), ex.RespKind, ex.RespBody, ex.RespChunkMax, ex.RespFlushPct, len(ex.RespHeaders), ex.Status, nn.Dropped, nn.Duped, nn.Reordered, nn.Filtered)
 			r.Event("req_kind_"+ex.ReqKind, 1)
 			r.Event("resp_kind_"+ex.RespKind, 1)
 		}
@@ -1417,14 +1575,52 @@ func TestVerif_C34(t *testing.T) {
 		if st.Stuck {
 			r.Event("stuck", 1)
 		}
+		if tp.Side[0].KeyPhaseSeen && tp.Side[1].KeyPhaseSeen {
+			r.Event("runs_with_quic_key_update", 1)
+			if cfg.KeyUpdateLossMs > 0 && nn.Filtered[0] > 0 {
+				r.Event("key_update_under_scripted_loss_runs", 1)
+			}
+		}
 		r.Event("datagrams", nn.Sent[0]+nn.Sent[1])
-		r.Event("datagrams_dropped", nn.Dropped[0]+nn.Dropped[1])
+		r.Event("datagrams_dropped", nn.Dropped[0]+nn.Dropped[1]+nn.Filtered[0])
 		r.Event("datagrams_duplicated", nn.Duped[0]+nn.Duped[1])
 		r.Event("datagrams_held_back", nn.Reordered[0]+nn.Reordered[1])
+		r.Event("quic_packets_logged", tp.Side[0].Sent+tp.Side[0].Received+tp.Side[1].Sent+tp.Side[1].Received)
+		r.Event("quic_packets_declared_lost", tp.Side[0].Lost+tp.Side[1].Lost)
 		r.Event("virtual_seconds", st.VirtualMs/1000)
-		r.Sample(map[string]any{"faults": cfg.Faults, "fault_phase_ms": cfg.FaultPhaseMs, "exchanges": len(cfg.Ex), "first_exchange": cfg.Ex[0].summary(),
-			"datagrams": nn.Sent, "dropped": nn.Dropped, "dup": nn.Duped, "held_back": nn.Reordered, "virtual_ms": st.VirtualMs})
+		r.Sample(map[string]any{"faults": cfg.Faults, "fault_phase_ms": cfg.FaultPhaseMs, "key_update_loss_ms": cfg.KeyUpdateLossMs, "exchanges": len(cfg.Ex), "first_exchange": cfg.Ex[0].summary(),
+			"datagrams": nn.Sent, "dropped": nn.Dropped, "scripted_drops": nn.Filtered, "dup": nn.Duped, "held_back": nn.Reordered, "virtual_ms": st.VirtualMs})
+	}
+
+	// Scripted loss around the first QUIC key update: both sides stream a few hundred KiB
+	// (so both pass the implementation's first-key-update point); from the client's packet
+	// 101 on, for a PRNG-chosen window, every client datagram carrying an ack-eliciting packet
+	// is lost while pure acknowledgements get through; afterwards the network is perfect and
+	// the exchange has to complete like any other.
+	nk := r.N(4, 40)
+	r.CasesParallel("key-update-under-loss", nk, 4, func(c *verifrt.Case) {
+		rng := c.Rng
+		cfg := &v34Config{Faults: vhnFaults{BaseDelayMs: 5 + rng.IntN(30)}, FaultPhaseMs: 30000, CleanBoundS: 120, NetSeed: rng.Uint64(),
+			KeyUpdateLossMs: 1000 + rng.IntN(3000), KeyUpdateAfter: 100}
+		ex := v34GenExchange(rng, 0, 1000, 6)
+		ex.Method, ex.Duplex, ex.Status, ex.EarlyHints = "POST", true, 200, false
+		ex.ReqKind, ex.ReqBody, ex.ReqDeclared, ex.ReqChunkMax, ex.ReqReadMax = v34ReqUnknown, 200000+rng.Int64N(200000), -1, 4096, 65536
+		if rng.IntN(2) == 0 {
+			ex.ReqKind, ex.ReqDeclared = v34ReqExact, ex.ReqBody
+		}
+		ex.RespKind, ex.RespBody, ex.RespDeclared, ex.RespChunkMax, ex.RespReadMax, ex.RespFlushPct = v34RespUndeclared, 300000+rng.Int64N(300000), -1, 4096, 65536, 0
+		ex.RespAfterReq = 75000 + rng.Int64N(15000) // the client gets ahead in packet numbers, the server catches up during the loss window
+		cfg.Ex = []*v34Exchange{ex}
+		if rng.IntN(2) == 0 {
+			cfg.Ex = append(cfg.Ex, v34GenExchange(rng, 1, 20000, 10))
+		}
+		runCase(c, cfg)
 	})
+
+	r.CasesParallel("exchange", n, 8, func(c *verifrt.Case) {
+		runCase(c, v34GenConfig(c.Rng, maxEx, maxBody, maxHeaders))
+	})
+	n += nk
 	r.Require("runs_completed", int64(n*8/10))
 	r.Require("handler_observations_checked", int64(n))
 	r.Require("client_observations_checked", int64(n))
@@ -1434,4 +1630,5 @@ func TestVerif_C34(t *testing.T) {
 	r.Require("resp_trailer_sets_verified", 3)
 	r.Require("req_trailer_sets_verified", 3)
 	r.Require("late_header_mutations_checked", 10)
+	r.Require("key_update_under_scripted_loss_runs", int64(nk/2))
 }
